@@ -1,10 +1,11 @@
 SPEC = {
     "id": "C05",
-    "drivers": [{"pkg": "internal/corerad", "test": "TestVerifC05", "newgo": True, "timeout": 1200}],
+    "drivers": [{"pkg": "internal/corerad", "test": "TestVerifC05", "newgo": True, "timeout": 1200},
+                {"pkg": "internal/corerad", "test": "TestVerifC05Stall", "newgo": True, "timeout": 1200}],
     "rule": "(i) multicastDelay called with an injected draw on (min,max) pairs produced by the real config.Parse: every "
             "whole-second max 4..1800 s with the default min x i in {2,3} x draws {0, range-1, a .5 s landing}; explicit "
             "min at 3s-1ns/3s/3s+1ns/upper-1s/upper/upper+1ns/upper+1s/max for sampled (quick) or all (thorough) max x i in "
-            "{0,2,3,7}; random fractional pairs incl. the 9 s corner. (ii) the real multicast loop under testing/synctest "
+            "{0,2,3,7}; random fractional pairs incl. the 9 s corner. (ii) the real multicast loop under testing/synctest (also with a consumer that stalls for up to four intervals: the wait after a stall must still be a full interval) "
             "for 8..48 requests from a random start instant, draws reproduced from the virtual-clock seed. Non-trivial: "
             "the pair is accepted (a delay was computed) or it is a loop case; distinct by canonical input.",
     "nontrivial": lambda c: "accepted" in c.get("tags", []) or "loop" in c.get("tags", []),
